@@ -13,6 +13,9 @@ impl Sut for InProc {
     fn build(&mut self, key: &str, v: &refcodec::val::Val) -> Option<Result<Built, String>> {
         crate::build::build_type(key, v)
     }
+    fn decode_eq(&mut self, key: &str, bytes: &[u8], want: &refcodec::val::Val) -> Option<bool> {
+        crate::build::decode_eq_type(key, bytes, want)
+    }
     fn run(&mut self, key: &str, bytes: &[u8]) -> Outcome {
         run_type(key, bytes)
     }
